@@ -73,3 +73,26 @@ Print Assumptions C01_counts_reported.
 Theorem C01_no_empty_swarm : forall ops, no_empty (run_spec ops).
 Proof. exact run_spec_no_empty. Qed.
 Print Assumptions C01_no_empty_swarm.
+
+(* ---- the Redis store (sequential model) refines the same specification, for every history;
+   all state lives in Redis, the model has no per-instance component, so any number of
+   tracker instances issuing these operations one after the other behaves identically *)
+From Chihaya Require Import Proofs.RedisP.
+Theorem C01_redis_refines_spec : forall ops, Forall sop_wf ops ->
+  forall ih v6, ih_wf ih -> observe red_if (run_redis ops) ih v6 = observe spec_if (run_spec ops) ih v6.
+Proof. exact redis_refines_spec. Qed.
+Print Assumptions C01_redis_refines_spec.
+
+Theorem C01_redis_response_verdict : forall ops a complete incomplete peers,
+  Forall sop_wf ops -> ih_wf (a_ih a) ->
+  response_verdict red_if a (run_redis ops) complete incomplete peers =
+  response_verdict spec_if a (run_spec ops) complete incomplete peers.
+Proof. exact redis_response_verdict. Qed.
+Print Assumptions C01_redis_response_verdict.
+
+(* the Redis keyspace after any history: only group hashes and swarm hashes, none empty *)
+Theorem C01_redis_keyspace : forall ops, Forall sop_wf ops ->
+  forall k h, hs (run_redis ops) !! k = Some h ->
+    h <> ∅ /\ ((exists v6, k = k_group v6) \/ (exists v6 s ih, ih_wf ih /\ k = k_swarm v6 s ih)).
+Proof. exact redis_keyspace. Qed.
+Print Assumptions C01_redis_keyspace.
